@@ -27,7 +27,8 @@ ScnOf(ev) ==
     bad |-> {<<ev.bad[i][1], ev.bad[i][2]>> : i \in DOMAIN ev.bad},
     h |-> ev.h, itl |-> ev.itl, szl |-> ev.szl, init |-> ev.init, ties |-> TRUE,
     orient |-> ev.orient, osrc |-> ev.osrc, odst |-> ev.odst, cu |-> CuOf(ev), rtf |-> ev.rtf, rtx |-> ev.rtx,
-    bb |-> ("bb" \in DOMAIN ev) /\ ev.bb]      \* black box: only Setup and End were recorded
+    bb |-> ("bb" \in DOMAIN ev) /\ ev.bb,      \* black box: only Setup and End were recorded
+    od |-> IF "od" \in DOMAIN ev THEN ev.od ELSE 0, ot |-> IF "ot" \in DOMAIN ev THEN ev.ot ELSE 0]
 
 Abs(x) == IF x < 0 THEN -x ELSE x
 
@@ -37,16 +38,18 @@ Abs(x) == IF x < 0 THEN -x ELSE x
 (* and gc itself (the code's haversine, in decimetres) must be the small-angle distance of  *)
 (* the milli-degree lattice coordinates within 1 percent.                                   *)
 VMax(ev) == LET S == {ev.E[e][4] : e \in DOMAIN ev.E} IN CHOOSE x \in S : \A y \in S : y <= x
-HS(ev, gc) ==   \* the specified estimate for a great-circle distance of gc decimetres, in milli-cost (decimal floating point)
+HSx(ev, gc, withOff) ==   \* the specified estimate for a great-circle distance of gc decimetres, in milli-cost (decimal floating point)
    LET cu == CuOf(ev)
        m  == SDiv(SInt(gc), SInt(10))
        dp == SDiv(SMul(SInt(ev.wd * ev.rd * cu[1]), m), SInt(cu[2]))
        tp == IF ev.model = "distance" \/ gc = 0 THEN SZero
              ELSE SDiv(SMul(SInt(ev.wt * ev.rt), SMul(SInt(cu[3]), SDiv(m, SInt(VMax(ev))))), SInt(cu[4]))
-   IN SDiv(SMul(SInt(ev.wf), SAdd(dp, tp)), SInt(1000))
+       off == SInt(1000 * ((IF "od" \in DOMAIN ev THEN ev.wd * ev.od ELSE 0) + (IF "ot" \in DOMAIN ev THEN ev.wt * ev.ot ELSE 0)))
+   IN SDiv(SMul(SInt(ev.wf), SAdd(SAdd(dp, tp), IF withOff THEN off ELSE SZero)), SInt(1000))      \* the rates' constant terms are part of the estimate
+HS(ev, gc) == HSx(ev, gc, TRUE)
 (* tolerance: half a percent, plus what one decimetre of rounding in the logged distance is worth, plus 2 milli-cost *)
 HClose(ev, v) == LET want == HS(ev, ev.gc[v])
-                 IN SLeq(SAbs(SSub(SInt(ev.h[v]), want)), SAdd(SAdd(SDiv(want, SInt(200)), HS(ev, 1)), SInt(2)))
+                 IN SLeq(SAbs(SSub(SInt(ev.h[v]), want)), SAdd(SAdd(SDiv(want, SInt(200)), HSx(ev, 1, FALSE)), SInt(2)))
 HOK(ev) == \/ ev.dst = 0 /\ \A v \in 1..ev.nv : ev.h[v] = 0
            \/ ev.dst # 0 /\ ev.est_mode = "script" /\
                 \A v \in 1..ev.nv : Abs(ev.h[v] - ev.wf * ev.wd * ev.rd * ev.hscript[v]) <= 1
